@@ -5,21 +5,6 @@ use crate::c09::*;
 
 /// Test generated for harness `c09::c09_shift_beyond_total_n0` 
 ///
-/// Check for `assertion`: "attempt to subtract with overflow"
-
-#[test]
-fn kani_concrete_playback_c09_shift_beyond_total_n0_7260883802088581170() {
-    let concrete_vals: Vec<Vec<u8>> = vec![
-        // 2
-        vec![2, 0, 0, 0],
-        // -1
-        vec![255, 255, 255, 255],
-    ];
-    kani::concrete_playback_run(concrete_vals, c09_shift_beyond_total_n0);
-}
-
-/// Test generated for harness `c09::c09_shift_beyond_total_n0` 
-///
 /// Check for `cover`: "interesting region of the parameter space reached and passed"
 
 #[test]
@@ -42,6 +27,21 @@ fn kani_concrete_playback_c09_shift_beyond_total_n0_18347029759308539044() {
     let concrete_vals: Vec<Vec<u8>> = vec![
         // -1
         vec![255, 255, 255, 255],
+        // -1
+        vec![255, 255, 255, 255],
+    ];
+    kani::concrete_playback_run(concrete_vals, c09_shift_beyond_total_n0);
+}
+
+/// Test generated for harness `c09::c09_shift_beyond_total_n0` 
+///
+/// Check for `assertion`: "attempt to subtract with overflow"
+
+#[test]
+fn kani_concrete_playback_c09_shift_beyond_total_n0_18029852399711001525() {
+    let concrete_vals: Vec<Vec<u8>> = vec![
+        // 3
+        vec![3, 0, 0, 0],
         // -1
         vec![255, 255, 255, 255],
     ];
